@@ -181,7 +181,8 @@ class AstAnalyzer:
                 while curr != prev:
                     prev = curr
                     curr = visit_block(stmt.body, prev).difference({p_loop_var})
-                return curr
+                # Variables used in the loop header (e.g. `n` in `range(n)`) are live before the loop.
+                return curr | _used_vars(stmt.iter)
             if isinstance(stmt, ast.While):
                 cond_vars = _used_vars(stmt.test)
                 prev = None
